@@ -6,7 +6,9 @@ for d in /verif/seeded/*/; do
   T=/tmp/seed-$n; rm -rf $T; mkdir -p $T; cp -r /repo/src $T/src
   if ! (cd $T && patch -p1 -s --dry-run < $d/patch.diff >/dev/null 2>&1); then echo "$n $prop NOAPPLY"; rm -rf $T; continue; fi
   (cd $T && patch -p1 -s < $d/patch.diff)
+  SNAP=$T/verif; mkdir -p $SNAP; rsync -a --exclude work --exclude evidence --exclude replays --exclude seeded --exclude benign --exclude .git /verif/ $SNAP/   # the machinery as it is now (immune to later edits)
+  cd $SNAP
   out=$(VERIF_SCRATCH=$T/v MQTT_SRC=$T/src ./check $prop --tier quick 2>&1); rc=$?
-  rm -rf $T
+  cd /verif; rm -rf $T
   echo "$n $prop rc=$rc $(echo "$out" | grep -m1 '^trace\|^record' | cut -c1-120)"
 done
